@@ -438,9 +438,11 @@ def run_level_bfs(pool, modname, fam_index, fam, tier):
                     nxt.append(nh)
                 else:
                     closed = False
-        if st.nviolations >= fam.stop_after_violations:
+        if st.nviolations > 0:
+            # the level is complete, so every violating history of minimal length is known: that is the verdict; on a
+            # broken tree hidden memory often makes every history a new state, and deeper levels would never finish
             st.exhaustive = False
-            st.cap_note = 'search stopped after %d violations' % st.nviolations
+            st.cap_note = 'search stopped after depth %d (%d violations found)' % (depth, st.nviolations)
             stopped = True
             closed = False
         if len(seen) > fam.max_states:
